@@ -39,8 +39,11 @@ pub fn seed_strategy() -> BoxedStrategy<u64> {
     prop_oneof![10 => any::<u64>(), 1 => prop::sample::select(vec![0u64, 1, 2, u64::MAX, u64::MAX - 1, u64::MAX - 3, u64::MAX - 299, 1 << 63, (1 << 63) - 1, (1 << 32) - 1, 1 << 32])].boxed()
 }
 
-pub fn decode_p(pclass: u8, praw: u32) -> f64 {
-    match pclass % 6 {
+pub fn decode_p(pclass: u8, praw: u32, n: u16) -> f64 {
+    match pclass % 7 {
+        // relative to the size: the expected skip spans 2^j / 2 rows of the pair grid (j = 0..=15),
+        // i.e. the expected number of edges per node is 2, 1, 1/2, ... 2^-14
+        6 => (2.0 * 0.5f64.powi((praw % 16) as i32) / (n.max(2) as f64)).min(0.999),
         0 => ((praw % 999) as f64 + 0.5) / 1000.0,                 // mid range
         1 => 1e-12 * (1.0 + (praw % 100_000) as f64),              // tiny: 1e-12 .. 1e-7
         2 => 1.0 - 1e-12 * (1.0 + (praw % 1000) as f64),           // just below 1
@@ -85,7 +88,7 @@ impl Prop for C16 {
         "C16"
     }
     fn rule(&self) -> String {
-        "exhaustive block: complete_graph(n, d) for every n in 0..=60 and both d; one statistical cell per n in {2,3,5,8,13,30,60} x p in {0.05,0.2,0.5,0.8,0.95} x d with 400 (quick) / 3000 (thorough) consecutive seeds: |mean edges - pN| <= pN/(n-1) + 8 sqrt(N p (1-p)/S), and for n <= 6, p >= 0.2 every possible pair occurs at least once; the karate-club graph against the Zachary edge list exported from NetworkX. Random block: fast_gnp_random_graph(n, p, d, seed) for n in 0..=300 with p from six classes (mid range, 1e-12..1e-7, 1-1e-12.., 1e-9*k, round values, 1e-13..1e-307), single draws and batches of consecutive seeds: Ok, nodes exactly 0..n-1, no self-loop, no repeated pair (orientation-insensitive when undirected); invalid p in {0, 1, -0.25, 1.5, +-inf, -0.0} => InvalidArgument; complete graphs for sampled n in 61..=300. Non-trivial = a draw with n >= 2 that produced >= 1 edge, a statistical cell, or a complete graph with n >= 2; distinct = distinct serialised case.".into()
+        "exhaustive block: complete_graph(n, d) for every n in 0..=60 and both d; a sweep of p = 2^-j * 2/n (j = 0..=13) x n in {17,33,65,129} x d with 20000 (n = 129: 10000; thorough x 10) consecutive seeds each, and of p in {1e-9, 3e-9} at n = 300 with 150000 seeds (structural check only); one statistical cell per n in {2,3,5,8,13,30,60} x p in {0.05,0.2,0.5,0.8,0.95} x d with 400 (quick) / 3000 (thorough) consecutive seeds: |mean edges - pN| <= pN/(n-1) + 8 sqrt(N p (1-p)/S), and for n <= 6, p >= 0.2 every possible pair occurs at least once; the karate-club graph against the Zachary edge list exported from NetworkX. Random block: fast_gnp_random_graph(n, p, d, seed) for n in 0..=300 with p from seven classes (mid range, 1e-12..1e-7, 1-1e-12.., 1e-9*k, round values, 1e-13..1e-307, 2^-j * 2/n), single draws and batches of consecutive seeds: Ok, nodes exactly 0..n-1, no self-loop, no repeated pair (orientation-insensitive when undirected); invalid p in {0, 1, -0.25, 1.5, +-inf, -0.0} => InvalidArgument; complete graphs for sampled n in 61..=300. Non-trivial = a draw with n >= 2 that produced >= 1 edge, a statistical cell, or a complete graph with n >= 2; distinct = distinct serialised case.".into()
     }
     fn assumptions(&self) -> Vec<String> {
         vec![
@@ -108,6 +111,18 @@ impl Prop for C16 {
                 }
             }
         }
+        // sweep of size-relative probabilities (expected skip = 2^j / 2 rows, j = 0..=13) at sizes
+        // just above powers of two, many seeds each with the structural check only: a skip that
+        // lands on one particular slot of the grid is an event of probability ~ 1/(e * rows * n)
+        for (n, batches) in [(17u16, 20u64), (33, 20), (65, 20), (129, 10)] {
+            for j in 0..14u32 {
+                for directed in [true, false] {
+                    for b in 0..batches * tier.pick(1, 10) {
+                        v.push(GenCase::GnpBatch { n, pclass: 6, praw: j, directed, seed0: 7_000_000 + b * 1000, count: 1000 });
+                    }
+                }
+            }
+        }
         let samples = tier.pick(400, 3000);
         let mut k = 0u64;
         for n in [2u16, 3, 5, 8, 13, 30, 60] {
@@ -123,7 +138,7 @@ impl Prop for C16 {
     fn strategy(&self, _tier: Tier) -> BoxedStrategy<GenCase> {
         prop_oneof![
             12 => (0u16..=300, any::<u8>(), any::<u32>(), any::<bool>(), seed_strategy()).prop_map(|(n, pclass, praw, directed, seed)| GenCase::Gnp { n, pclass, praw, directed, seed }),
-            6 => (prop_oneof![0u16..=20, 250u16..=300], prop_oneof![Just(1u8), Just(3u8)], any::<u32>(), any::<bool>(), any::<u64>(), 1u16..400).prop_map(|(n, pclass, praw, directed, seed0, count)| GenCase::GnpBatch { n, pclass, praw, directed, seed0, count }),
+            6 => (prop_oneof![0u16..=20, 250u16..=300], prop_oneof![Just(1u8), Just(3u8), Just(6u8)], any::<u32>(), any::<bool>(), any::<u64>(), 1u16..400).prop_map(|(n, pclass, praw, directed, seed0, count)| GenCase::GnpBatch { n, pclass, praw, directed, seed0, count }),
             2 => (0u16..=300, 0u8..7, any::<bool>(), any::<u64>()).prop_map(|(n, which, directed, seed)| GenCase::GnpInvalid { n, which, directed, seed }),
             1 => (61u16..=300, any::<bool>()).prop_map(|(n, directed)| GenCase::Complete { n, directed }),
             1 => (prop_oneof![Just(2u16), Just(4u16), Just(6u16), Just(20u16)], 20u16..980, any::<bool>(), any::<u64>()).prop_map(|(n, p_milli, directed, seed0)| GenCase::Stat { n, p_milli, directed, seed0, samples: 300 }),
@@ -181,7 +196,7 @@ impl Prop for C16 {
                 out.nontrivial = *n >= 2;
             }
             GenCase::Gnp { n, pclass, praw, directed, seed } => {
-                let p = decode_p(*pclass, *praw);
+                let p = decode_p(*pclass, *praw, *n);
                 out.api_calls += 1;
                 match guard(|| random::fast_gnp_random_graph(*n as i32, p, *directed, Some(*seed))) {
                     Err(pm) => out.fail(format!("fast_gnp_random_graph/panic/{}", panic_class(&pm)), format!("n={} p={:e} directed={} seed={}: {}", n, p, directed, seed, pm)),
@@ -191,11 +206,11 @@ impl Prop for C16 {
                         out.nontrivial = *n >= 2 && m >= 1;
                     }
                 }
-                out.class(format!("p_class_{}", pclass % 6));
+                out.class(format!("p_class_{}", pclass % 7));
                 out.class(if *directed { "directed" } else { "undirected" });
             }
             GenCase::GnpBatch { n, pclass, praw, directed, seed0, count } => {
-                let p = decode_p(*pclass, *praw);
+                let p = decode_p(*pclass, *praw, *n);
                 let mut edges = 0;
                 for k in 0..*count as u64 {
                     let seed = seed0.wrapping_add(k);
@@ -209,7 +224,7 @@ impl Prop for C16 {
                         break;
                     }
                 }
-                out.class("tiny_p_batch");
+                out.class(if *pclass % 7 == 6 { "size_relative_p_batch" } else { "tiny_p_batch" });
                 out.nontrivial = *n >= 2 && edges >= 1;
             }
             GenCase::GnpInvalid { n, which, directed, seed } => {
